@@ -23,6 +23,7 @@ import (
 	"go/token"
 	"go/types"
 	"os"
+	"path/filepath"
 	"sort"
 	"strings"
 
@@ -279,12 +280,29 @@ func normalise(repo, goarch string, overlay map[string][]byte) (map[string][]byt
 		if len(sites) == 0 {
 			// nothing left to inline
 			// (1) de-literalise what the inliner could not splice
+			var before map[string][]byte // the sources before the last de-literalisation round
 			for round := 0; round < 12; round++ {
 				pk, err := loadPkgs(repo, goarch, cur)
+				if err != nil && before != nil {
+					// the last round produced something the compiler rejects: keep the literals of that round as
+					// they were (the walkers step through immediately-invoked literals) and stop
+					if dir := os.Getenv("SACHECK_DEBUG_DIR"); dir != "" {
+						for fn, c := range cur {
+							_ = os.WriteFile(filepath.Join(dir, filepath.Base(fn)), c, 0o644)
+						}
+					}
+					rep.Kept = append(rep.Kept, fmt.Sprintf("(de-literalisation round %d undone: %s)", round, firstLines(err.Error(), 2)))
+					cur = before
+					break
+				}
 				if err != nil {
 					return nil, rep, fmt.Errorf("normalise: the source does not type-check after de-literalisation round %d: %v", round, err)
 				}
 				changed := 0
+				snap := map[string][]byte{}
+				for a, b := range cur {
+					snap[a] = b
+				}
 				for _, pkg := range pk {
 					for _, f := range pkg.Syntax {
 						fn := pkg.Fset.File(f.Pos()).Name()
@@ -312,6 +330,7 @@ func normalise(repo, goarch string, overlay map[string][]byte) (map[string][]byt
 				if changed == 0 {
 					break
 				}
+				before = snap
 			}
 			// (2) delete the helpers nobody references any more
 			pkgs, err = loadPkgs(repo, goarch, cur)
@@ -719,13 +738,6 @@ func findSoleSites(f *ast.File) []soleSite {
 }
 
 func litBodyOK(lit *ast.FuncLit) bool {
-	if lit.Type.Results != nil {
-		for _, f := range lit.Type.Results.List {
-			if len(f.Names) > 0 {
-				return false
-			}
-		}
-	}
 	ok := true
 	ast.Inspect(lit.Body, func(n ast.Node) bool {
 		switch x := n.(type) {
@@ -788,11 +800,30 @@ func delambdaFile(fset *token.FileSet, f *ast.File, content []byte) ([]byte, int
 		label := fmt.Sprintf("inlined_%d", id)
 		var rets []string
 		var decls bytes.Buffer
+		// named results become ordinary variables of the spliced block (declared at its top, zero-valued, and
+		// referenced once so that an unused one does not stop the compiler)
+		var named []string // names, parallel to rets ("" if unnamed)
+		var namedDecl bytes.Buffer
 		if s.lit.Type.Results != nil {
-			for i, fld := range s.lit.Type.Results.List {
-				name := fmt.Sprintf("inlinedResult_%d_%d", id, i)
-				rets = append(rets, name)
-				fmt.Fprintf(&decls, "var %s %s\n", name, src(fld.Type.Pos(), fld.Type.End()))
+			k := 0
+			for _, fld := range s.lit.Type.Results.List {
+				typ := src(fld.Type.Pos(), fld.Type.End())
+				cnt := len(fld.Names)
+				if cnt == 0 {
+					cnt = 1
+				}
+				for j := 0; j < cnt; j++ {
+					name := fmt.Sprintf("inlinedResult_%d_%d", id, k)
+					k++
+					rets = append(rets, name)
+					fmt.Fprintf(&decls, "var %s %s\n", name, typ)
+					if len(fld.Names) > 0 && fld.Names[j].Name != "_" {
+						named = append(named, fld.Names[j].Name)
+						fmt.Fprintf(&namedDecl, "var %s %s\n_ = %s\n", fld.Names[j].Name, typ, fld.Names[j].Name)
+					} else {
+						named = append(named, "")
+					}
+				}
 			}
 		}
 		// body with returns rewritten (bottom-up inside the body)
@@ -811,9 +842,25 @@ func delambdaFile(fset *token.FileSet, f *ast.File, content []byte) ([]byte, int
 				hasReturn = true
 				var t bytes.Buffer
 				t.WriteString("{ ")
-				if len(x.Results) == len(rets) {
-					for i, r := range x.Results {
-						fmt.Fprintf(&t, "%s = %s; ", rets[i], src(r.Pos(), r.End()))
+				if len(x.Results) == 0 && len(rets) > 0 {
+					// bare return: the named results
+					for i := range rets {
+						if named[i] != "" {
+							fmt.Fprintf(&t, "%s = %s; ", rets[i], named[i])
+						}
+					}
+				} else if len(rets) == 0 {
+					// nothing to hand over
+				} else if len(x.Results) == len(rets) {
+					// evaluate all operands first (they may mention the named results), then assign
+					if len(rets) == 1 {
+						fmt.Fprintf(&t, "%s = %s; ", rets[0], src(x.Results[0].Pos(), x.Results[0].End()))
+					} else {
+						var rs []string
+						for _, r := range x.Results {
+							rs = append(rs, src(r.Pos(), r.End()))
+						}
+						fmt.Fprintf(&t, "%s = %s; ", strings.Join(rets, ", "), strings.Join(rs, ", "))
 					}
 				} else if len(x.Results) == 1 && len(rets) > 1 {
 					fmt.Fprintf(&t, "%s = %s; ", strings.Join(rets, ", "), src(x.Results[0].Pos(), x.Results[0].End()))
@@ -831,9 +878,9 @@ func delambdaFile(fset *token.FileSet, f *ast.File, content []byte) ([]byte, int
 		var out bytes.Buffer
 		out.Write(decls.Bytes())
 		if hasReturn {
-			fmt.Fprintf(&out, "%s:\nswitch {\ndefault:\n%s\n}\n", label, body)
+			fmt.Fprintf(&out, "%s:\nswitch {\ndefault:\n%s%s\n}\n", label, namedDecl.String(), body)
 		} else {
-			fmt.Fprintf(&out, "{\n%s\n}\n", body)
+			fmt.Fprintf(&out, "{\n%s%s\n}\n", namedDecl.String(), body)
 		}
 		callA, callB := tf.Offset(s.call.Pos()), tf.Offset(s.call.End())
 		stmtA, stmtB := tf.Offset(s.stmt.Pos()), tf.Offset(s.stmt.End())
